@@ -217,7 +217,7 @@ def run_group(scratch, package, features, harnesses, jobs, tier, idx):
     default_to = 420 if tier == "quick" else 2400
     to = max([h.timeout or default_to for h in harnesses])
     if tier == "quick":
-        to = min(to, 600)
+        to = min(to, 900)
     mem_kb = int(os.environ.get("VERIF_MEM_GB", "10" if tier == "quick" else "20")) * 1024 * 1024
     # wall cap: build + ceil(n/jobs) rounds of the harness timeout
     rounds = (len(harnesses) + jobs - 1) // jobs
